@@ -991,3 +991,51 @@ def rule_PL8(ctx, tier):
         rr.fail("is_permanent-table", "RetryError::is_permanent folds to %s" % t)
     rr.require_floor(7, "PL8 instances")
     return rr
+
+
+# ------------------------------------------------------------------------------------------------------------------
+# PT: named predicates of the client's state enums say what their name says
+_PT_EXPLICIT = {
+    "teos_common::net::AddressType::is_clearnet": {"IpV4"},
+    "teos_common::net::AddressType::is_tor": {"TorV3"},
+    "watchtower_plugin::net::http::RequestError::is_connection": {"ConnectionError"},
+}
+
+
+def _snake(name):
+    import re
+    return re.sub(r"(?<!^)(?=[A-Z])", "_", name).lower()
+
+
+def rule_PT(ctx, tier):
+    """The retry manager, the revocation hook and the transport pick their branch with `is_<variant>()` predicates of small state
+    enums (RetrierStatus, RevocationData, SubscriptionError, RequestError, AddressType; TowerStatus is PL5's).  Every such predicate,
+    folded over the variants of its enum by abstract evaluation, is true exactly for the variant it is named after (three predicates
+    whose name is not a variant name have their row written out above).  Predicates with other names are not judged."""
+    from .tables import enum_pred_table
+    rr = RuleResult("PT", "state predicates `is_<variant>()` of the client enums are true exactly for the variant they name")
+    P = ctx.prog
+    for bid, b in sorted(P.bodies.items()):
+        last = bid.split("::")[-1]
+        if not last.startswith("is_") or not bid.startswith(("watchtower_plugin::", "teos_common::net::")) or "::tests::" in bid or len(b.locals) < 2 or b.kind == "closure":
+            continue
+        if bid.startswith("watchtower_plugin::TowerStatus::"):
+            continue
+        t = enum_pred_table(ctx, bid)
+        if t is None:
+            continue
+        exp = _PT_EXPLICIT.get(bid)
+        if exp is None:
+            exp = {v for v in t if _snake(v) == last[3:]}
+            if len(exp) != 1:
+                continue  # not named after a variant: nothing is promised by the name
+        if any(v is None for v in t.values()):
+            rr.fail("table-undecided:%s" % shortfn(bid), "cannot fold `%s` over the variants of its enum (%s)" % (bid, t), where=b.span)
+            continue
+        good = {v for v, val in t.items() if val}
+        if good == exp:
+            rr.ok("%s == %s" % (shortfn(bid), sorted(exp)), sample={"rule": "PT", "predicate": bid, "table": t})
+        else:
+            rr.fail("named-predicate:%s=%s" % (shortfn(bid), ",".join(sorted(good)) or "nothing"), "`%s` is true for %s, its name and its callers mean %s" % (shortfn(bid), sorted(good) or "no variant", sorted(exp)), where=b.span)
+    rr.require_floor(8, "named predicates folded")
+    return rr
